@@ -265,3 +265,54 @@ def run(run):
 
 
 run_flow = run
+
+
+def thorough(run):
+    """bounded-exhaustive comparison of the extracted identifier / tag / legend-entry grammars with the language the
+    statement describes, over every string up to length 5 (tags, entries: 6) on an alphabet that contains one
+    representative of every character class the grammars distinguish"""
+    import itertools
+    g, mod, gfile = load_parser_module(run)
+    if g is None:
+        run.missing("C16.L3", "util::parser")
+        return
+    ID = r"[A-Za-z_][A-Za-z0-9_]*"
+    refs = {
+        "ident": (re.compile(r"^(%s)" % ID), lambda m: m.group(1), "aZ1_- {", 5),
+        # `{}` is accepted with zero classes and stays ordinary text downstream (L4)
+        "tag_classes": (re.compile(r"^\{((?:%s(?:,%s)*)?)\}" % (ID, ID)), lambda m: m.group(1).split(",") if m.group(1) else [], "a1_,{} .", 6),
+        "class_and_style": (re.compile(r"^(%s)[ \t]*=[ \t]*\{([^{}]*)\}" % ID), lambda m: (m.group(1), m.group(2)), "a1= {}\t;", 6),
+    }
+    for gname, (rx, outf, sigma, maxlen) in refs.items():
+        if gname not in g.fns:
+            run.missing("C16.L3", "grammar " + gname)
+            continue
+        n = 0
+        bad = None
+        for L in range(0, maxlen + 1):
+            for tup in itertools.product(sigma, repeat=L):
+                text = "".join(tup)
+                n += 1
+                try:
+                    ok, pos, out = g.parse(gname, text)
+                except (GrammarError, Unknown) as ex:
+                    bad = (text, "uninterpretable: %s" % ex)
+                    break
+                m = rx.match(text)
+                want_ok = m is not None
+                if ok != want_ok:
+                    bad = (text, "%s, the statement's language %s it" % ("accepts -> %r" % (out,) if ok else "rejects", "contains" if want_ok else "does not contain"))
+                    break
+                if ok:
+                    want = outf(m)
+                    got = tuple(out) if isinstance(want, tuple) else out
+                    if got != want:
+                        bad = (text, "yields %r, expected %r" % (out, want))
+                        break
+            if bad:
+                break
+        if bad:
+            run.bad("C16.L3", "grammar-language/%s" % gname, gfile, "grammar `%s` on %r: %s (bounded-exhaustive comparison)" % (gname, bad[0], bad[1]))
+        else:
+            run.ok("C16.L3", "grammar `%s` agrees with the statement's language on all %d strings over %r up to length %d" % (gname, n, sigma, maxlen), gfile)
+
